@@ -123,6 +123,16 @@ func (g *Gen) callMods(c *ssa.CallCommon, stack map[*ssa.Function]bool) map[stri
 	if isEffectFree(name) || isNilSafeGetter(name) || returnsNonNilError(name) {
 		return out
 	}
+	if name == "encoding/json.Unmarshal" && len(c.Args) == 2 {
+		if mi, ok := c.Args[1].(*ssa.MakeInterface); ok {
+			if pt, ok := mi.X.Type().Underlying().(*types.Pointer); ok {
+				if a, isAlloc := mi.X.(*ssa.Alloc); !isAlloc || !g.isCellAlloc(a) {
+					out["*struct:"+typeKey(pt.Elem())] = true
+				}
+				return out
+			}
+		}
+	}
 	if c.IsInvoke() {
 		if c.Method.Name() == "Error" || c.Method.Name() == "String" {
 			return out
